@@ -253,6 +253,13 @@ def special_cases(fam, is_set, is_tree):
                     continue
                 for op in ("ixor", "isub", "iand", "ior"):
                     cases.append(("S", prep, n, op))
+        # in-place operators with a plain iterable that REPEATS elements (a list is not a set: the number of
+        # elements yielded says nothing about the number of distinct keys).  ^= is left out: it toggles once per
+        # element in both implementations (recorded finding of C10).
+        for n in (1, 2, 3, 5, 8):
+            for shape in ("all-but-one-repeated", "one-key-n-times", "subset-doubled", "superset-doubled"):
+                for op in ("isub", "iand", "ior"):
+                    cases.append(("D", shape, n, op))
     return cases
 
 
@@ -283,6 +290,10 @@ class Scenario:
             elif name == "self":
                 import operator
                 r = getattr(operator, op[1])(t, t)
+                return ("ret", "self" if r is t else "other: %r" % (r,))
+            elif name == "inplace":
+                import operator
+                r = getattr(operator, op[1])(t, list(op[2]))
                 return ("ret", "self" if r is t else "other: %r" % (r,))
             else:
                 return H.apply_impl(t, op)
@@ -440,6 +451,38 @@ def run_special(case, note, cfg):
         bad = sc.step(call, want_exc="TypeError")
         return done(bad, tail)
 
+    if case[0] == "D":
+        _, shape, n, op = case
+        tail = "%s:%s" % (op, shape)
+        fill = keys[:n]
+        bad = run([ins(x) for x in fill])
+        if bad:
+            return done(bad, tail, True)
+        outside = keys[n:n + 2] if len(keys) > n else []
+        operand = {"all-but-one-repeated": (fill[:-1] + fill[:1]) if n > 1 else [fill[0], fill[0]],
+                   "one-key-n-times": [fill[0]] * n,
+                   "subset-doubled": fill[::2] * 2,
+                   "superset-doubled": (fill + outside) * 2}[shape]
+        import operator
+        r = set(sc.ref.d)
+        r = getattr(operator, op)(r, set(operand))
+        sc.ref.d = {x: None for x in r}
+        sc.hist.append(["s %s= %r" % ({"isub": "-", "iand": "&", "ior": "|"}[op], operand)])
+        note("%s with a list repeating elements (%s) on %d keys" % (op, shape, n))
+        sc.evals += 1
+        res = sc.apply(sc.t, ("inplace", op, operand))
+        if res != ("ret", "self"):
+            return done(sc.fail("result", "s %s= %r gave %r; the builtin set returns s itself" % (op, operand, res)), tail)
+        if sc.mode == "twin":
+            res2 = sc.apply(sc.u, ("inplace", op, operand))
+            if res2 != res:
+                return done(sc.fail("twin-result", "s %s= list: %s %r, twin %r" % (op, sc.impl, res, res2)), tail)
+        want = sc.ref.contents()
+        bad = sc.observe(sc.t, want)
+        if bad is None and sc.mode == "twin":
+            bad = sc.observe(sc.u, want, "twin-")
+        return done(bad, tail)
+
     _, prep, n, op = case
     tail = op
     fill = keys[:n]
@@ -500,7 +543,7 @@ def run_special_config(s, fam, kind, impl, sizes, mode):
     results = H.guarded_cases(fn, cases, timeout=20, stop=stop)
     ran = 0
     for case, r in zip(cases, results):
-        scen = "empty-reject" if case[0] == "E" else "self-operand"
+        scen = {"E": "empty-reject", "D": "repeating-operand"}.get(case[0], "self-operand")
         if r[0] == "skipped":
             continue
         ran += 1
